@@ -2,7 +2,7 @@ package main
 
 func init() {
 	register("C17", Rule{Name: "E5", Run: runE5})
-	register("C01", Rule{Name: "E4.P1", Run: runP1}, Rule{Name: "E4.P2P3", Run: runP2P3}, Rule{Name: "E4.P2prod", Run: runP2Producers}, Rule{Name: "E4.P4", Run: runP4}, Rule{Name: "E4.P5", Run: runP5}, Rule{Name: "E1.pairing", Run: runKindPairing})
+	register("C01", Rule{Name: "E4.P1", Run: runP1}, Rule{Name: "E4.P2P3", Run: runP2P3}, Rule{Name: "E4.P2prod", Run: runP2Producers}, Rule{Name: "E4.P4", Run: runP4}, Rule{Name: "E4.P5", Run: runP5}, Rule{Name: "E1.pairing", Run: runKindPairing}, Rule{Name: "E14.termination", Run: runTermination})
 	register("C03", Rule{Name: "E2", Run: runE2}, Rule{Name: "E2.cmp", Run: runE2Comparators}, Rule{Name: "E2.nondet", Run: runNondetSources}, Rule{Name: "E3.state", Run: runGlobalState}, Rule{Name: "E3", Run: runE3},
 		Rule{Name: "E2.cmp-subject", Run: runCmpSubject}, Rule{Name: "E2.poskeys", Run: runPosKeys})
 }
